@@ -52,7 +52,7 @@ def gen(rng, tier):
     d1 = rng.choice([0.01, 0.05, 0.1, 0.25])
     d2 = rng.choice([0.01, 0.05, 0.1, 0.25])
     case = {'sub': 'e2e', 'cc': rng.choice(['reno', 'reno', 'cubic']), 'segments': n,
-            'rtt_est': rng.choice([0.05, 0.2, 1.0, 1.0, 3.0]), 'd_data': d1, 'd_ack': d2,
+            'rtt_est': rng.choice([0.05, 0.2, 1.0, 1.0, 3.0, 100.0]), 'd_data': d1, 'd_ack': d2,
             'cwnd': rng.choice([MSS, MSS, 2 * MSS, 4 * MSS, 10 * MSS]), 'ssthresh': rng.choice([65535, 65535, 2048, 4096]),
             'faults_data': {}, 'faults_ack': {}}
     if rng.random() < 0.12:
